@@ -795,6 +795,15 @@ def build_item(cur, log):
             a1 = next_code(toks, lk)
             a2 = next_code(toks, a1)
             a3 = next_code(toks, a2)
+            if toks[a1].text == "(":
+                # `for (&a, b) in E {` -> `for (a__r, b) in E { let a = *a__r;`
+                b1 = next_code(toks, a1); b2 = next_code(toks, b1)
+                if toks[b1].text == "&" and toks[b2].kind == "ident":
+                    v = toks[b2].text
+                    ed.replace(toks[b1].start, toks[b2].end, v + "__r")
+                    ed.insert(toks[lo_].end, f" let {v} = *{v}__r;")
+                    log.append(("R1", where, text[toks[lk].start:toks[lo_].end]))
+                continue
             if toks[a1].text == "&" and toks[a2].kind == "ident" and toks[a3].text == "in":
                 v = toks[a2].text
                 ed.replace(toks[a1].start, toks[a2].end, v + "__r")
@@ -808,8 +817,9 @@ def build_item(cur, log):
         # `for x in NAME {` / `for x in &NAME.field {` (slice or &Vec) -> explicit `.iter()` (IntoIterator for &[T] / &Vec<T>)
         for (lk, lo_, lc_) in loops:
             if toks[lk].text != "for": continue
-            a1 = next_code(toks, lk); a2 = next_code(toks, a1)
-            if toks[a1].kind != "ident" or toks[a2].text != "in": continue
+            a1 = next_code(toks, lk)
+            a2 = next_code(toks, match_forward(toks, a1)) if toks[a1].text == "(" else next_code(toks, a1)
+            if toks[a2].text != "in": continue
             last = prev_code(toks, lo_)
             expr = text[toks[a2].end:toks[last].end].strip()
             if re.fullmatch(r"&?[\w\.]+", expr) and not expr.endswith(")"):
